@@ -80,6 +80,7 @@ def plan_mutator(plan, msg_proc):
     result_stack = deque()
     tail_cache = dict()  # noqa: C408
     tail_result_cache = dict()  # noqa: C408
+    inserted_plans = dict()  # noqa: C408  # head and tail generators returned by msg_proc
     exception = None
 
     parent_plan = plan
@@ -189,7 +190,9 @@ def plan_mutator(plan, msg_proc):
         # if inserting / mutating, put new generator on the stack
         # and replace the current msg with the first element from the
         # new generator
-        if id(msg) not in msgs_seen:
+        # Messages that come out of a head or tail generator were inserted by
+        # ``msg_proc`` itself: they are passed on as they are, not processed again.
+        if id(msg) not in msgs_seen and id(plan_stack[-1]) not in inserted_plans:
             # Use the id as a hash, and hold a reference to the msg so that
             # it cannot be garbage collected until the plan is complete.
             msgs_seen[id(msg)] = msg
@@ -205,6 +208,10 @@ def plan_mutator(plan, msg_proc):
                 result_stack.append(None)
                 # stash the tail generator
                 tail_cache[id(new_gen)] = tail_gen
+                # (hold references so that the ids stay unique)
+                inserted_plans[id(new_gen)] = new_gen
+                if tail_gen is not None:
+                    inserted_plans[id(tail_gen)] = tail_gen
                 # go to the top of the loop
                 continue
 
